@@ -203,6 +203,9 @@ def gen_policy(rnd, name):
     y = rnd.choice([1988, 1991, 1994, 1996])     # starts before the window, so the era's initial state is defined by the rules
     letters = rnd.choice([('S', 'D'), ('-', 'S'), ('S', 'D')])
     save = rnd.choice(['1:00', '1:00', '0:30', '2:00', '0:20'])      # 0:20 is not a multiple of the 15 minutes both table formats hold
+    # negative daylight saving, also one that is not a multiple of 15 minutes (the period still ends with SAVE 0)
+    if rnd.random() < 0.12:
+        save = rnd.choice(['-1:00', '-0:20', '-0:30'])
     for p in range(nper):
         last = p == nper - 1
         to = 'max' if (last and rnd.random() < 0.7) else str(y + rnd.choice([0, 2, 5, 9]))
@@ -248,6 +251,11 @@ def decoy_source(lines):
         if f[0] == 'Link' or keep:
             out.append(raw)
     out.append('Zone\tDecoy/Extra\t3:00\t-\tDEC')
+    # links the real source does not have: one to the added zone, one to a zone both sources have
+    out.append('Link\tDecoy/Extra\tDecoy/Alias')
+    kept = [l.split()[1] for l in out if l.split() and l.split()[0] == 'Zone' and not l.split()[1].startswith('Decoy/')]
+    if kept:
+        out.append('Link\t%s\tDecoy/Alias2' % kept[0])
     return out
 
 
@@ -308,6 +316,47 @@ def truncate_lines(lines, scope):
     return out
 
 
+def edge_source():
+    """a fixed source of boundary constructs (each found to matter): two rules of one policy that fire on the same day an hour
+    apart; fixed RULES offsets of an era outside the -1:00..+2:45 the tables can hold; a rule whose TO year does not fit the
+    tables' one-byte year; the extreme admissible SAVE values"""
+    return [
+        'Rule\tSame\t1999\t2010\t-\tOct\tSun>=9\t4:00u\t1:00\t-',
+        'Rule\tSame\t2000\t2007\t-\tOct\tSun>=9\t3:00u\t0\t-',
+        'Rule\tSame\t2008\tonly\t-\tMar\t30\t3:00u\t0\t-',
+        'Zone\tTest/SameDay\t-4:00\tSame\t-04/-03',
+        'Zone\tTest/BigFixed\t1:00\t-\tTST\t2005',
+        '\t\t\t1:00\t3:00\tTBT\t2010',
+        '\t\t\t1:00\t-\tTST',
+        'Zone\tTest/NegFixed\t1:00\t-\tTST\t2005',
+        '\t\t\t1:00\t-1:15\tTNT\t2010',
+        '\t\t\t1:00\t-\tTST',
+        'Rule\tFar\t1995\t2200\t-\tApr\t1\t2:00\t1:00\tD',
+        'Rule\tFar\t1995\t2200\t-\tOct\t1\t2:00\t0\tS',
+        'Zone\tTest/FarTo\t1:00\tFar\tT%sT',
+        'Rule\tTop\t1995\t2036\t-\tApr\t1\t2:00\t2:45\tD',
+        'Rule\tTop\t1995\t2036\t-\tOct\t1\t2:00\t0\tS',
+        'Zone\tTest/TopSave\t2:00\tTop\tT%sT',
+        'Rule\tBot\t1995\t2036\t-\tApr\t1\t2:00\t-1:00\tW',
+        'Rule\tBot\t1995\t2036\t-\tOct\t1\t2:00\t0\tS',
+        'Zone\tTest/BottomSave\t2:00\tBot\tT%sT',
+        'Zone\tTest/Plain\t2:00\t-\tPLN',
+    ]
+
+
+NEAR_UNTIL_ALL = set()
+
+
+def _compiler_accepts(lines):
+    import tempfile
+    d = tempfile.mkdtemp(prefix='genc-', dir=common.mkdir(os.path.join(common.BUILD, 'scratch')))
+    try:
+        res, _o, _e = run_compiler(lines, d, 'extended', flags=('arduino',))
+        return res is not None
+    finally:
+        shutil.rmtree(d, ignore_errors=True)
+
+
 def _zic_accepts(lines):
     import tempfile
     d = tempfile.mkdtemp(prefix='gen-', dir=common.mkdir(os.path.join(common.BUILD, 'scratch')))
@@ -318,21 +367,30 @@ def _zic_accepts(lines):
         shutil.rmtree(d, ignore_errors=True)
 
 
-def gen_source(rnd, nzones):
-    """zones are generated one at a time and kept only if zic accepts them without complaint"""
+def gen_source(rnd, nzones, near_until=False):
+    """zones are generated one at a time and kept only if zic accepts them without complaint. near_until: eras that use
+    their policy may end on the day of one of its rule transitions at a time given in another time frame (u / s), so that the
+    wall, standard and universal readings of the transition fall on different sides of the era's end"""
     out = []
     k = 0
     tries = 0
     while k < nzones and tries < nzones * 6:
         tries += 1
-        z = _gen_zone(rnd, k)
+        z = _gen_zone(rnd, k, near_until)
+        if near_until and any(l.split('\t')[-1] in NEAR_UNTIL_ALL for l in z if not l.startswith('Rule')) and not _compiler_accepts(z):
+            # the real compiler refuses (loudly: ZoneSpecifier raises "Transitions not sorted" inside the buffer-size
+            # estimator) some eras that end near a rule transition with a large jump of the UTC offset: not an accepted source
+            continue
         if _zic_accepts(z):
             out += z
             k += 1
     return out
 
 
-def _gen_zone(rnd, k):
+NEAR_UNTIL_TIMES = ['0:00u', '0:30u', '1:30s', '2:30s', '3:00u', '1:00s', '23:00u', '2:00u']
+
+
+def _gen_zone(rnd, k, near_until=False):
     lines = []
     for k in [k]:
         zname = 'Test/Zone_%03d' % k
@@ -352,6 +410,8 @@ def _gen_zone(rnd, k):
             rules = plan[e]
             if rules == pol:
                 fmt = rnd.choice(['TE%sT', 'STD/DST', 'XY%sZ'])   # abbreviations of 3..6 characters (POSIX)
+                if rnd.random() < 0.15:
+                    fmt = 'FIXT'                                  # named rules with a FORMAT that has neither %s nor '/' (noted by the compiler, like Africa/Johannesburg)
                 used_pol = True
             elif rules == '-':
                 fmt = rnd.choice(['TST', '+05', 'ABC'])
@@ -366,6 +426,20 @@ def _gen_zone(rnd, k):
                     f = rnd.choice([l for l in pol_lines if l.startswith('Rule')]).split('\t')
                     if int(f[2]) <= y and (f[3] == 'max' or (f[3] == 'only' and int(f[2]) == y) or (f[3] not in ('max', 'only') and int(f[3]) >= y)):
                         u = [str(y), f[5], f[6], f[7]]
+                if near_until and plan[e] == pol and rnd.random() < 0.8:
+                    f = rnd.choice([l for l in pol_lines if l.startswith('Rule')]).split('\t')
+                    if int(f[2]) <= y and (f[3] == 'max' or (f[3] == 'only' and int(f[2]) == y) or (f[3] not in ('max', 'only') and int(f[3]) >= y)):
+                        # (the rule's own AT time moved by less than the zone's offset / the DST shift, in another time frame)
+                        at, suf = tzparse.attime(f[7])
+                        cands = list(NEAR_UNTIL_TIMES)
+                        if suf == 'w':
+                            # east of Greenwich the universal reading of the transition is earlier than its wall reading, west later:
+                            # the era's end is put between the two
+                            sgn = 1 if off.startswith('-') else -1
+                            cands = [_fmt_hms(t) + sf for t, sf in ((at + sgn * 3600, 'u'), (at + sgn * 1800, 'u'), (at + sgn * 7200, 'u'), (at - 1800, 's'), (at + 1800, 's'))
+                                     if 0 <= t <= 86400 and t % 60 == 0] or cands
+                        u = [str(y), f[5], f[6], rnd.choice(cands)]
+                        NEAR_UNTIL_ALL.add(u[3])
                 y += rnd.choice([2, 5, 9])
             else:
                 u = []
